@@ -33,7 +33,11 @@ def cloud(g, n, gap, least=False):
         sd = np.array([3.0 * math.sqrt(gap) * g.uniform(1.0, 1.6), 3.0 * math.sqrt(gap), 3.0])   # least variance along z
     else:
         sd = np.array([3.0 / g.uniform(1.0, 1.6), 3.0, 3.0 * math.sqrt(gap)])                       # largest variance along z
-    X = g.normal(size=(n, 3)) * sd
+    Z = g.normal(size=(n, 3))
+    Z = Z - Z.mean(0)
+    w, V = np.linalg.eigh(np.cov(Z.T))
+    Z = (Z @ V) / np.sqrt(w)                      # sample covariance exactly the identity
+    X = Z * sd                                    # sample eigenvalue ratio at the relevant extreme exactly `gap`
     return X - X.mean(0)
 
 
@@ -71,8 +75,7 @@ def build_align_case(rng, g, axis, selkind, export, source, theta, phi, gap):
         m = 0 if selkind == 'all' else rng.choice([3, 8, 15])
         Xo = g.normal(size=(m, 3)) * g.uniform(1, 8, size=3) + g.uniform(-20, 20, size=3)
         Xs, Xo = np.round(Xs, 3), np.round(Xo, 3)
-        gr = gap_ratio(Xs)
-        if gr >= 1.05 and (gap > 1.15 or gr < 1.15):      # a near-threshold request must give a near-threshold sample
+        if gap_ratio(Xs) >= 1.05:                        # rounding to three decimals moves the gap by ~1e-4
             break
     else:
         raise RuntimeError('could not build a cloud with the requested gap')
@@ -150,7 +153,7 @@ def cases(ctx):
             for selkind in ('all', 'chain', 'name'):
                 for export in (False, True):
                     theta, phi = grid[k % len(grid)]; k += 1
-                    gap = rng.choice([1.08, 1.3, 2.0, 5.0, 50.0])
+                    gap = rng.choice([1.051, 1.08, 1.3, 2.0, 5.0, 50.0])
                     out.append(build_align_case(rng, g, axis, selkind, export, rng.choice(['file', 'object']), theta, phi, gap))
     # the whole grid for each axis (no export)
     for axis in ('x', 'y', 'z'):
@@ -165,7 +168,7 @@ def cases(ctx):
     for _ in range(ctx.scale(20, 1500)):
         theta, phi = math.acos(rng.uniform(-1, 1)), rng.uniform(-math.pi, math.pi)
         out.append(build_align_case(rng, g, rng.choice('xyz'), rng.choice(['all', 'chain', 'name']), False, 'object', theta, phi,
-                                    rng.choice([1.06, 1.5, 10.0])))
+                                    rng.choice([1.051, 1.06, 1.5, 10.0])))
     out.append({'op': 'align_axis', 'axis': 'w', 'lines': build_align_case(rng, g, 'x', 'all', False, 'object', 1.0, 1.0, 3.0)['lines'], 'family': 'bad-axis'})
     return out
 
